@@ -222,12 +222,15 @@ func init() {
 		Scopes: func(tier string) []*drv.Scope {
 			var out []*drv.Scope
 			if tier == "quick" {
+				// strides are coprime to 9, so no vertex of the selected patterns / paths is pinned to lattice point 0
 				out = append(out,
 					c08Scope("minkowski/P(3,3)/E_ax x open 2-point paths/E_ax20", enum.Eax, 3, 1, enum.Eax20, 2, false, 1, 1),
-					c08Scope("minkowski/every 3rd of P(3,3)/E_sh x open 3-point paths (every 3rd)/E_ax20", enum.Esh, 3, 3, enum.Eax20, 3, false, 3, 2),
-					c08Scope("minkowski/every 3rd of P(3,3)/E_ax x closed triangles (every 3rd)/E_sh20", enum.Eax, 3, 3, enum.Esh20, 3, true, 3, 2),
-					c08Scope("minkowski/every 27th of P(3,4)/E_ax x closed triangles (every 9th)/E_ax20", enum.Eax, 4, 27, enum.Eax20, 3, true, 9, 3),
-					c08Scope("minkowski/every 9th of P(3,3)/E_ax x single points/E_ax20", enum.Eax, 3, 9, enum.Eax20, 1, false, 1, 1))
+					c08Scope("minkowski/every 4th of P(3,3)/E_sh x open 3-point paths (every 4th)/E_ax20", enum.Esh, 3, 4, enum.Eax20, 3, false, 4, 2),
+					c08Scope("minkowski/every 4th of P(3,3)/E_ax x closed triangles (every 4th)/E_sh20", enum.Eax, 3, 4, enum.Esh20, 3, true, 4, 2),
+					c08Scope("minkowski/every 28th of P(3,4)/E_ax x closed triangles (every 10th)/E_ax20", enum.Eax, 4, 28, enum.Eax20, 3, true, 10, 3),
+					c08Scope("minkowski/every 10th of P(3,3)/E_ax x single points/E_ax20", enum.Eax, 3, 10, enum.Eax20, 1, false, 1, 1),
+					// 4-point patterns include explicitly closed rings a,b,c,a (pattern[0] == pattern[last])
+					c08Scope("minkowski/every 7th of P(3,4)/E_ax x open 2-point paths (every 5th)/E_ax20", enum.Eax, 4, 7, enum.Eax20, 2, false, 5, 3))
 				return out
 			}
 			for _, pe := range []enum.Embed{enum.Eax, enum.Esh} {
@@ -236,8 +239,9 @@ func init() {
 					c08Scope("minkowski/P(3,3)/"+pe.Name+" x open 2-point paths/E_ax20", pe, 3, 1, enum.Eax20, 2, false, 1, 1),
 					c08Scope("minkowski/P(3,3)/"+pe.Name+" x open 3-point paths/E_ax20", pe, 3, 1, enum.Eax20, 3, false, 1, 2),
 					c08Scope("minkowski/P(3,3)/"+pe.Name+" x closed triangles/E_sh20", pe, 3, 1, enum.Esh20, 3, true, 1, 2),
-					c08Scope("minkowski/every 9th of P(3,4)/"+pe.Name+" x closed triangles/E_ax20", pe, 4, 9, enum.Eax20, 3, true, 1, 3),
-					c08Scope("minkowski/P(3,3)/"+pe.Name+" x closed quads (every 27th)/E_ax20", pe, 3, 1, enum.Eax20, 4, true, 27, 3))
+					c08Scope("minkowski/every 10th of P(3,4)/"+pe.Name+" x closed triangles/E_ax20", pe, 4, 10, enum.Eax20, 3, true, 1, 3),
+					c08Scope("minkowski/P(3,4)/"+pe.Name+" x open 2-point paths/E_ax20", pe, 4, 1, enum.Eax20, 2, false, 1, 3),
+					c08Scope("minkowski/P(3,3)/"+pe.Name+" x closed quads (every 28th)/E_ax20", pe, 3, 1, enum.Eax20, 4, true, 28, 3))
 			}
 			return out
 		},
